@@ -103,6 +103,16 @@ func PrepareOutdir(outdir string, importFiles []string, delExisted bool) error {
 // CleanSlashPath is xfs.CleanSlashPath.
 func CleanSlashPath(path string) string { return xfs.CleanSlashPath(path) }
 
+// ParseCSVFilenamePattern is xfs.ParseCSVFilenamePattern ("<Book>#<Sheet>.csv" → book, sheet).
+func ParseCSVFilenamePattern(filename string) (string, string, error) {
+	return xfs.ParseCSVFilenamePattern(filename)
+}
+
+// ParseCSVBooknamePatternFrom is xfs.ParseCSVBooknamePatternFrom (a sheet file's path → "<Dir>/<Book>#*.csv").
+func ParseCSVBooknamePatternFrom(filename string) (string, error) {
+	return xfs.ParseCSVBooknamePatternFrom(filename)
+}
+
 // RewriteSubdir is xfs.RewriteSubdir.
 func RewriteSubdir(path string, subdirRewrites map[string]string) string {
 	return xfs.RewriteSubdir(path, subdirRewrites)
